@@ -125,6 +125,32 @@ func TestVerifC02Yamux(t *testing.T) {
 		if ns > 1 {
 			out.Cover("yamux.conns_with_several_streams")
 		}
+		// a stream user that bounds only its writes: the write deadline must not cut its reads short
+		// when the remote answers late
+		if i%3 == 1 {
+			x, err := ca.OpenStream(context.Background())
+			if err != nil {
+				t.Fatal(err)
+			}
+			if _, err := x.Write([]byte{0xEE}); err != nil {
+				t.Fatal(err)
+			}
+			y, err := cb.AcceptStream()
+			if err != nil {
+				t.Fatal(err)
+			}
+			one := make([]byte, 1)
+			if _, err := y.Read(one); err != nil || one[0] != 0xEE {
+				t.Fatalf("marker: %v %v", err, one)
+			}
+			x.SetWriteDeadline(time.Now().Add(100 * time.Millisecond))
+			y.SetWriteDeadline(time.Now().Add(30 * time.Second))
+			wl := []int{1 + r.Intn(5000), r.Intn(5000)}
+			bl := []int{1 + r.Intn(8192)}
+			line := verifh.StreamCase(5, 201, r.Intn(1<<19), wl, bl, &c02LateWriter{w: y, d: 350 * time.Millisecond}, y.CloseWrite, x, 20*time.Second)
+			out.Case(line)
+			out.Cover("yamux.read_after_own_write_deadline_passed")
+		}
 		// a reader whose deadline ran out while data piled up in the receive buffer: buffered
 		// bytes are still handed out; the Read that has to send a window update (half the
 		// window consumed) cannot, and returns its bytes together with a timeout; the reader
@@ -199,3 +225,18 @@ func TestVerifC02Yamux(t *testing.T) {
 type yamuxLazy struct{ s *network.MuxedStream }
 
 func (l yamuxLazy) Read(b []byte) (int, error) { return (*l.s).Read(b) }
+
+// c02LateWriter delays its first Write
+type c02LateWriter struct {
+	w    interface{ Write([]byte) (int, error) }
+	d    time.Duration
+	done bool
+}
+
+func (l *c02LateWriter) Write(b []byte) (int, error) {
+	if !l.done {
+		l.done = true
+		time.Sleep(l.d)
+	}
+	return l.w.Write(b)
+}
